@@ -1,12 +1,16 @@
 #!/bin/bash
 # Diagnostic (not a registered check): block coverage of the library by the quick tier of every check
-# (C18 excluded: race build). Lists the library blocks no check executes. Scratch data on /dev/shm.
+# (C18 with the race build). Lists the library blocks no check executes. Scratch data on /dev/shm.
+# usage: coverage.sh [quick|thorough] [Cnn: only that check]
 cd "$(dirname "$0")"
 export GOFLAGS=-mod=mod GOPROXY=off GOSUMDB=off GOTOOLCHAIN=local TZ=UTC
 S=$(mktemp -d /dev/shm/verifcov.XXXXXX); trap 'rm -rf $S' EXIT
 mkdir -p $S/verif/evidence; cp known_findings.txt $S/verif/
 (cd mc && go build -cover -coverpkg=.,github.com/jamespfennell/gtfs/... -tags verif -overlay ../build/overlay.json -o $S/mc_cover .) || exit 2
-for i in $(seq -w 1 20); do id=C$i; [ $id = C18 ] && continue; mkdir -p $S/data/$id
+(cd mc && go build -race -cover -coverpkg=.,github.com/jamespfennell/gtfs/... -tags verif -overlay ../build/overlay_race.json -o $S/mc_cover_race .) || exit 2
+ONLY=${2:-}
+for i in $(seq -w 1 20); do id=C$i; [ -n "$ONLY" ] && [ "$ONLY" != "$id" ] && continue; mkdir -p $S/data/$id
+  if [ $id = C18 ]; then VERIF_DIR=$S/verif GOCOVERDIR=$S/data/$id GORACE="exitcode=0 history_size=4" $S/mc_cover_race $id ${1:-quick} 2>&1 | grep -E "^C[0-9]+ " | cut -c1-100; continue; fi
   VERIF_DIR=$S/verif GOCOVERDIR=$S/data/$id $S/mc_cover $id ${1:-quick} 2>&1 | grep -E "^C[0-9]+ " | cut -c1-100; done
 dirs=$(ls -d $S/data/* | tr '\n' ',' | sed 's/,$//')
 (cd mc && go tool covdata textfmt -i=$dirs -o $S/all.txt)
